@@ -252,8 +252,8 @@ func classify(c *Case, m *model, out *outcome) {
 	if m.complex {
 		out.label("complex_clusters")
 	}
-	if m.intraClusterCandidate(0, m.n) {
-		out.label("uax14_candidate_inside_cluster")
+	if m.unusableCandidateIn(0, m.n) {
+		out.label("uax14_candidate_inside_glyph_or_grapheme_cluster")
 	}
 	if m.hasLS {
 		out.label("letter_spacing")
